@@ -287,7 +287,7 @@ ROUND6 = {
     ("C13", "A"): ("RGBA tuple re-formatted into an rgba() string: float alphas below 1e-4 print in exponent notation and lose the exponent", "alphas next to 0 (1e-5 .. 1e-7) in every translucent spelling"),
     ("C13", "B"): ("background's original passed to the parser: hsla text over non-integer 3-tuple backgrounds blended over the raw numbers", "every tuple form of background in the translucent workload"),
     ("C14", "A"): ("input spliced into a str.format template on the component-error path: '{}' / '{name}' raise IndexError / KeyError", "template metacharacters ({}, {0}, {name}, %s, %(x)s, $x, \\1) in near-miss and special strings"),
-    ("C14", "B"): ("repr() of the input inside the except handler: ints beyond the interpreter's decimal-conversion limit raise ValueError there", "10**5000 / -10**5000 among the sequence elements (harness messages use a limit-free repr)"),
+    ("C14", "B"): ("repr() of the input inside the except handler: ints beyond the interpreter's decimal-conversion limit raise ValueError there", "not claimed: ints beyond the 4300-digit limit are outside the quantifier ('ints of moderate magnitude'); generating them made a neutral variant alarm, so they were withdrawn"),
     ("C15", "A"): ("shared step-list prefix extended in place by mode 2's option B: every later call of the process uses steps up to 15", None),
     ("C15", "B"): ("bulk keyword 'large' shadows the loop variable: a 3-tuple's flag leaks into later 2-tuples", None),
     ("C16", "A"): ("relaxed mode loses the initial default-mode shortcut: option B overrides mode-1 colours by one unit under very_readable", None),
